@@ -48,9 +48,11 @@ def tstep(mask_row, action, done) -> str:
 
 class Episode:
     """what one batch row showed: per step (mask before, action, done after), final mask, reward, verdict"""
-    __slots__ = ("steps", "final_mask", "reward", "complete", "checker", "checker_msg", "dead_end", "crash")
+    __slots__ = ("steps", "final_mask", "reward", "complete", "checker", "checker_msg", "dead_end", "crash", "book0", "book")
 
     def __init__(self):
+        self.book0 = None          # bookkeeping entries after reset (only when envh.BOOK is set: C02 / C04)
+        self.book = []             # bookkeeping entries after every step env.step returned from
         self.steps = []
         self.final_mask = None
         self.reward = None
@@ -100,6 +102,22 @@ CHOOSERS = {"uniform": choose_uniform, "depot_first": choose_depot_first, "depot
 
 # ------------------------------------------------------------------------------------------ rollouts
 
+# Bookkeeping recorder: None, or a callable td -> list (one per batch row) of lists of raw values (ints / floats): the
+# bookkeeping keys of the env's step output that the adapter's row model has a counterpart for (adapter.book_values).
+# Set by vt/envprops.run_env_property around the collection of C02 / C04; every rollout then records the entries after
+# reset and after every step (Episode.book0 / Episode.book).
+BOOK = None
+
+
+def _book(td):
+    if BOOK is None:
+        return None
+    try:
+        return BOOK(td)
+    except (ValueError, KeyError):      # a key is missing / has an unexpected form: this rollout is not compared
+        return None
+
+
 def cat_tds(tds):
     return torch.cat(tds, 0)
 
@@ -117,6 +135,11 @@ def rollout(env, td_in, rng, choosers=None, forced=None, pad_steps=0, max_steps=
     td = env.reset(td_in.clone())
     td_reset = td.clone()
     eps = [Episode() for _ in range(B)]
+    b0 = _book(td)
+    book_on = b0 is not None
+    if book_on:
+        for r in range(B):
+            eps[r].book0 = b0[r]
     acts = []
     t = 0
     extra = pad_steps
@@ -155,6 +178,15 @@ def rollout(env, td_in, rng, choosers=None, forced=None, pad_steps=0, max_steps=
         dn = td["done"].reshape(B, -1).any(-1).tolist()
         for r in range(B):
             eps[r].steps.append((mrows[r], a_t[r], bool(dn[r])))
+        if book_on:
+            bk = _book(td)
+            if bk is None:
+                book_on = False
+                for r in range(B):
+                    eps[r].book0 = None
+            else:
+                for r in range(B):
+                    eps[r].book.append(bk[r])
         acts.append(a_t)
         t += 1
     fm = td["action_mask"].bool().tolist()
